@@ -19,7 +19,10 @@ type Expr struct {
 	// quantifiers
 	Vars  []string
 	VType string
+	VTypes []string
 	Pos   string
+	// optional triggers of a quantifier: forall k int :: { t1, t2 } { t3 } body
+	Triggers [][]*Expr
 }
 
 func (e *Expr) String() string {
@@ -192,23 +195,56 @@ func (p *parser) parseTop() *Expr {
 	if t.k == "id" && (t.s == "forall" || t.s == "exists") {
 		p.next()
 		var vars []string
+		var vtypes []string
+		isType := func(s string) bool {
+			switch s {
+			case "int", "bool", "u8", "u16", "u32", "u64", "ref", "slice", "str", "row":
+				return true
+			}
+			return false
+		}
+		pending := 0
 		for {
 			v := p.next()
 			if v.k != "id" {
 				panic(fmt.Errorf("expected bound variable in %q", p.src))
 			}
 			vars = append(vars, v.s)
+			vtypes = append(vtypes, "")
+			pending++
+			if nt := p.peek(); nt.k == "id" && isType(nt.s) {
+				p.next()
+				for i := len(vtypes) - pending; i < len(vtypes); i++ {
+					vtypes[i] = nt.s
+				}
+				pending = 0
+			}
 			if !p.accept(",") {
 				break
 			}
 		}
-		vt := "int"
-		if p.peek().k == "id" {
-			vt = p.next().s
+		for i := range vtypes {
+			if vtypes[i] == "" {
+				vtypes[i] = "int"
+			}
 		}
+		vt := vtypes[len(vtypes)-1]
 		p.expect("::")
+		var trigs [][]*Expr
+		for p.isOp("{") {
+			p.next()
+			var grp []*Expr
+			for !p.isOp("}") {
+				grp = append(grp, p.parseTop())
+				if !p.accept(",") {
+					break
+				}
+			}
+			p.expect("}")
+			trigs = append(trigs, grp)
+		}
 		body := p.parseTop()
-		return &Expr{Kind: t.s, Vars: vars, VType: vt, Args: []*Expr{body}}
+		return &Expr{Kind: t.s, Vars: vars, VType: vt, VTypes: vtypes, Args: []*Expr{body}, Triggers: trigs}
 	}
 	return p.parseIff()
 }
